@@ -541,6 +541,7 @@ type Axiom struct {
 	Where string
 	// lemma: proved by induction on Induct (if non-empty) or directly
 	IsLemma bool
+	IsGinv  bool
 	Induct  string
 	TParams []string
 }
@@ -551,12 +552,13 @@ type ContractFile struct {
 	Ghosts  []*GhostFunc
 	Macros  []*Macro
 	Axioms  []*Axiom
+	Ginvs   []*Axiom
 }
 
 var clauseKeywords = map[string]bool{
 	"func": true, "requires": true, "ensures": true, "assigns": true, "loop": true,
 	"ghost": true, "pred": true, "define": true, "axiom": true, "lemma": true, "inline": true,
-	"invariant": true, "decreases": true, "trusted": true, "pure": true, "note": true, "unroll": true,
+	"invariant": true, "decreases": true, "trusted": true, "pure": true, "note": true, "unroll": true, "ginv": true,
 }
 
 // ParseContractFile reads //@ lines (or all lines if raw is true).
@@ -734,6 +736,14 @@ func ParseContractFile(path, pkg string, raw bool) (*ContractFile, error) {
 			}
 			cf.Axioms = append(cf.Axioms, a)
 			cur = nil
+		case "ginv":
+			a, err := parseAxiom(c.text, where, pkg, false)
+			if err != nil {
+				return nil, err
+			}
+			a.IsGinv = true
+			cf.Ginvs = append(cf.Ginvs, a)
+			cur = nil
 		}
 	}
 	return cf, nil
@@ -893,9 +903,14 @@ func parseAssigns(text, where string) ([]AssignItem, error) {
 			if err != nil {
 				return nil, err
 			}
+			if id, isId := e.(*EIdent); isId {
+				// a captured (heap-allocated) local variable itself
+				items = append(items, AssignItem{Kind: "var", Name: id.Name})
+				continue
+			}
 			f, ok := e.(*EField)
 			if !ok {
-				return nil, fmt.Errorf("%s: assigns item %q must be x.f, *x, x[..] or 'global name'", where, part)
+				return nil, fmt.Errorf("%s: assigns item %q must be x.f, *x, x[..], a captured variable or 'global name'", where, part)
 			}
 			items = append(items, AssignItem{Kind: "field", X: f.X, Name: f.Name})
 		}
